@@ -793,6 +793,8 @@ BUILTINS = [
 ALL = CORE + AGG + ORDER + SUGAR + RECURSION + FUNCTORS + WORKFLOW + BUILTINS
 from . import lgen4 as _lgen4   # noqa: E402  (round-4 schemas; imports S, J, iterate from this module)
 ALL = ALL + _lgen4.ROUND4
+from . import lgen5 as _lgen5   # noqa: E402
+ALL = ALL + _lgen5.ROUND5
 
 
 def by_tag(tag):
